@@ -8,6 +8,8 @@ let chunks_of (spec : string) (src : n list) : n list list =
   go lens src
 
 let both s = s ^ " | " ^ s
+(* decoder answers: bundled lib/base64.cc (flag false) | linked libnettle (flag true) *)
+let both_dec f = f false ^ " | " ^ f true
 let dec_str = function
   | DOk o -> "ok " ^ hex_of_bytes o
   | DTrunc o -> "trunc " ^ hex_of_bytes o
@@ -18,12 +20,13 @@ let () =
   reg "b64.enc" (fun [sp; h] -> both (hex_of_bytes (encode_chunks ectx_init (chunks_of sp (bytes_of_hex h)))));
   reg "b64.raw" (fun [h] -> both (hex_of_bytes (encode_raw (bytes_of_hex h))));
   reg "b64.dec" (fun [sp; h] ->
-      both (dec_str (decode_chunks dctx_init (chunks_of sp (bytes_of_hex h)) [])));
+      both_dec (fun k -> dec_str (decode_chunks k dctx_init (chunks_of sp (bytes_of_hex h)) [])));
   reg "b64.rt" (fun [esp; dsp; h] ->
       let e = encode_chunks ectx_init (chunks_of esp (bytes_of_hex h)) in
-      both (dec_str (decode_chunks dctx_init (chunks_of dsp e) [])));
+      both_dec (fun k -> dec_str (decode_chunks k dctx_init (chunks_of dsp e) [])));
   reg "basic" (fun [cs; h] ->
-      match decodeCleartext (bytes_of_hex h) with
+      (* squid links libnettle in this build: decodeCleartext runs nettle's decoder *)
+      match decodeCleartext true (bytes_of_hex h) with
       | None -> "null"
       | Some ct ->
         let (u, p) = basic_split (cs = "1") ct in
